@@ -186,8 +186,14 @@ def supported(cfg, world, t, top=True, _seen=None, roundtrip=True) -> bool:
 
 class Gen:
     def __init__(self, rng: random.Random, max_depth=3, big=False, no_any=False, recursive=True, unions=False, nt=False,
-                 enum_lits=False, coercible=False):
+                 enum_lits=False, coercible=False, hierarchies=False, twin_fields=False):
         self.rng = rng
+        # class HIERARCHIES (an attrs class / dataclass derived from an earlier class of the world: `base` = its index,
+        # `fields` = the inherited attributes (marked `inherited`) followed by its own) and ordinary classes whose
+        # annotations are all STRINGS (`strann`, PEP 563 style).  Invisible to the model (a class is its flat field list).
+        self.hierarchies = hierarchies
+        # attrs classes with two attributes of the SAME type exactly one of which carries an (identity) attrs converter
+        self.twin_fields = twin_fields
         # `Literal[...]` types that contain enum members (structured by `_structure_enum_literal`, unstructured by
         # run-time class); kept out of set-element / mapping-key / union-tag positions
         self.enum_lits = enum_lits and not os.environ.get("VERIF_NO_ENUM_LITS")
@@ -429,7 +435,61 @@ class Gen:
             for f in others:
                 out.insert(r.randint(0, len(out)), f)
             fields = out
-        return {"kind": kind, "frozen": frozen, "fields": fields, "slots": r.random() < 0.5, "recursive": recursive}
+        c = {"kind": kind, "frozen": frozen, "fields": fields, "slots": r.random() < 0.5, "recursive": recursive}
+        if self.twin_fields and kind == "attrs":
+            self._twin(w, ci, c)
+        if self.hierarchies and kind in ("attrs", "dc"):
+            self._inherit(w, ci, c)
+        return c
+
+    def _twin(self, w, ci, c):
+        """two attributes of one type, exactly one of them with an attrs converter"""
+        r = self.rng
+        cands = [f for f in c["fields"] if f["ty"] is not None and not f.get("bare_final") and f["init"]
+                 and ci not in type_classes(f["ty"])]
+        if len(cands) < 2 or r.random() >= 0.4:
+            return
+        f1, f2 = r.sample(cands, 2)
+        ty = r.choice(["int", "float", "bool", "str"]) if r.random() < 0.6 else f1["ty"]
+        for f in (f1, f2):
+            f["ty"] = ty
+            if f["dflt"] is not None:
+                v = self.value(w, ty, 2, any_stable=True)
+                f["dflt"] = ("c", v) if v[0] in ("N", "b", "i", "f", "s", "y", "e") else ("fac", v)
+            f.pop("idconv", None)
+        r.choice([f1, f2])["idconv"] = True
+        c["twin"] = True
+
+    def _inherit(self, w, ci, c):
+        """derive the class from an earlier one / spell its annotations as strings"""
+        r = self.rng
+        if c["recursive"] is not None or any(f.get("bare_final") for f in c["fields"]):
+            return
+        if r.random() < 0.3:
+            c["strann"] = True
+        bases = [j for j in range(ci) if w["classes"][j]["kind"] == c["kind"] and w["classes"][j].get("recursive") is None
+                 and not any(f.get("bare_final") for f in w["classes"][j]["fields"])]
+        if not bases or r.random() >= 0.35:
+            return
+        bi = r.choice(bases)
+        base = w["classes"][bi]
+        names = {f["name"] for f in base["fields"]}
+        own = [f for f in c["fields"] if f["name"] not in names]
+        if any(f["init"] and not f["kw_only"] and f["dflt"] is not None for f in base["fields"]):
+            for f in own:
+                if f["init"] and not f["kw_only"] and f["dflt"] is None:
+                    f["kw_only"] = True      # no mandatory positional attribute after a defaulted (inherited) one
+        c["fields"] = [dict(f, inherited=True) for f in base["fields"]] + own
+        c["base"] = bi
+        c["frozen"] = base["frozen"]
+        c["slots"] = base["slots"]
+        if base.get("strann") and r.random() < 0.7:
+            c["strann"] = True
+        if c["kind"] == "attrs" and r.random() < 0.4:
+            # a hierarchy written in one module with postponed evaluation of annotations: both classes stringified
+            c["strann"] = True
+            if not base.get("strann") and not any(k.get("base") == bi for k in w["classes"]):
+                base["strann"] = True
 
     def nt_cls(self, w, ci):
         """a typing.NamedTuple class: every field annotated (no leading underscore), defaults on a suffix of the fields
